@@ -33,10 +33,15 @@ def make_case(rng, i, tier):
     cfg["pitch"] = [55, 80]
     if cfg["bins"] not in tc.BINS_REGULAR:
         cfg["bins"] = 1
-    route = rng.choice(["split_q", "split_noq", "direct"])
-    pc = gen.piece(rng, ntracks=cfg["tracks"], lens=gen.DEFAULT_NOTE_VALUES, ongrid=GRID, ragged=True, keys=False,
-                   cross_bars=(route != "direct") and rng.random() < 0.5, meta=0, nseg=(1, 3), nbars=(1, 3), max_notes=7,
+    route = rng.choice(["split_q", "split_noq", "direct", "raw"])
+    pc = gen.piece(rng, ntracks=cfg["tracks"], lens=gen.DEFAULT_NOTE_VALUES, ongrid=GRID, ragged=(route != "raw"), keys=False,
+                   cross_bars=(route not in ("direct", "raw")) and rng.random() < 0.5, meta=0, nseg=(1, 3), nbars=(1, 3), max_notes=7,
                    sigs=[(4, 4), (3, 4), (6, 8), (2, 4), (5, 4), (2, 2), (7, 8)], pitches=(60, 62, 72))
+    if route == "raw":
+        # chunks are plain pieces of the whole-bar padded tracks (no Bar objects, hence no signature event at every bar
+        # start): the carried state dictionary is the only memory of the signature in force
+        for t in pc["tracks"]:
+            t["pad"] = pc["total"]
     return {"cfg": cfg, "piece": pc, "route": route, "partition_seed": rng.randrange(10 ** 6)}
 
 
@@ -61,7 +66,10 @@ def run(case, ctx):
     tok = tc.make_tok(cfg)
     LOG.n("c03.flags." + "".join("1" if x else "0" for x in cfg["flags"]))
     seqs = [gen.build_seq(t) for t in pc["tracks"]]
-    if case["route"] == "direct":
+    raw = case["route"] == "raw"
+    if raw:
+        tb = None
+    elif case["route"] == "direct":
         # bars built directly from per-bar material
         tb = []
         for t in pc["tracks"]:
@@ -72,10 +80,22 @@ def run(case, ctx):
             tb.append(trk)
     else:
         tb = Sequence.sequences_split_bars(seqs, 0, quantise_note_lengths=(case["route"] == "split_q"))
-    nb = len(tb[0])
-    lens = [orc.peek(b.sequence)[2] for b in tb[0]]
-    sigs = [(b.time_signature_numerator, b.time_signature_denominator) for b in tb[0]]
-    whole = [Bar.to_sequence([b.copy() for b in trk]) for trk in tb]
+    if raw:
+        nb = len(pc["bars"])
+        lens = [b[1] for b in pc["bars"]]
+        sigs = [tuple(b[2]) for b in pc["bars"]]
+        whole = [q.copy() for q in seqs]
+    else:
+        nb = len(tb[0])
+        lens = [orc.peek(b.sequence)[2] for b in tb[0]]
+        sigs = [(b.time_signature_numerator, b.time_signature_denominator) for b in tb[0]]
+        whole = [Bar.to_sequence([b.copy() for b in trk]) for trk in tb]
+
+    def chunk_empty(a, b):
+        if raw:
+            lo, hi = sum(lens[:a]), sum(lens[:b])
+            return not any(lo <= n[2] < hi for t in pc["tracks"] for n in t["notes"])
+        return _chunk_empty(tb, a, b)
     try:
         t_whole = tok.tokenise(whole)
     except Exception as e:
@@ -95,8 +115,13 @@ def run(case, ctx):
         toks = []
         consumed = 0
         ok = True
-        for (a, b) in groups:
-            chunk = [Bar.to_sequence([bb.copy() for bb in trk[a:b]]) for trk in tb]
+        if raw:
+            pieces = [q.copy().split([sum(lens[a:b]) for (a, b) in groups]) for q in seqs]
+            if any(len(p) != len(groups) for p in pieces):
+                LOG.n("c03.observed.raw_split_piece_count_mismatch")
+                continue
+        for gi, (a, b) in enumerate(groups):
+            chunk = [p[gi] for p in pieces] if raw else [Bar.to_sequence([bb.copy() for bb in trk[a:b]]) for trk in tb]
             try:
                 toks += tok.tokenise(chunk, state_dict=sd)
             except Exception as e:
@@ -107,8 +132,7 @@ def run(case, ctx):
             LOG.n("c03.state_checked")
             cap_total = 96 * sigs[b - 1][0] // sigs[b - 1][1]
             st = (sd.get("cur_time"), sd.get("cur_time_bar"), sd.get("cur_bar_capacity_remaining"))
-            # an all-empty chunk emits no rest: its clock legitimately stays behind (the next call's shift uses cur_time)
-            if st[1] != 0 or (st[0] != consumed and not _chunk_empty(tb, a, b)) or (st[2] != cap_total and st[0] == consumed):
+            if st[1] != 0 or st[0] != consumed or st[2] != cap_total:
                 fails.append(fail("state_dictionary_after_call", {"groups": groups, "after_group": (a, b), "state": st,
                                                                   "expected": (consumed, 0, cap_total)}))
                 ok = False
@@ -131,7 +155,7 @@ def run(case, ctx):
             break
     if len(set(sigs)) > 1:
         LOG.n("c03.signature_change")
-    if any(_chunk_empty(tb, k, k + 1) for k in range(nb)):
+    if any(chunk_empty(k, k + 1) for k in range(nb)):
         LOG.n("c03.empty_bar")
     notes_after_first = any(n[2] >= lens[0] for r in ref for n in r["notes"])
     return {"nontrivial": nb >= 2 and notes_after_first, "fails": fails[:6],
@@ -141,3 +165,41 @@ def run(case, ctx):
 
 def _chunk_empty(tb, a, b):
     return all(not any(m.message_type.value == "note_on" for m in bb.sequence.rel._messages) for trk in tb for bb in trk[a:b])
+
+
+def _corpus_body(rng, k):
+    from vmon import corpus
+    from vmon.monitors import LOG
+    from scoda.elements.bar import Bar
+    from scoda.sequences.sequence import Sequence
+    fs = corpus.files()
+    f = fs[k % len(fs)]
+    name, seqs = corpus.pipeline_piece(f)
+    d = max(s.get_sequence_duration() for s in seqs)
+    cut = rng.randrange(192, max(193, min(d, 3000)))
+    seqs = [s.split([cut])[0] if s.get_sequence_duration() > cut else s for s in seqs]
+    tb = Sequence.sequences_split_bars(seqs, 0)      # the documented pipeline: cut fragments are re-quantised
+    nb = len(tb[0])
+    cfg = tc.rand_cfg(rng, i=(k // len(fs)) % 16)
+    cfg.update(tracks=len(tb), pitch=[21, 108], steps=None, values=None, bins=rng.choice([1, 4]))
+    tok = tc.make_tok(cfg)
+    ref = _detok_obs(tok, tok.tokenise([Bar.to_sequence([b.copy() for b in trk]) for trk in tb]))
+    parts = [tuple(range(1, nb))] + [tuple(sorted(rng.sample(range(1, nb), rng.randint(0, nb - 1)))) for _ in range(4)] if nb > 1 else [()]
+    for cuts in parts:
+        sd, toks = {}, []
+        for (a, b) in zip((0,) + cuts, cuts + (nb,)):
+            toks += tok.tokenise([Bar.to_sequence([bb.copy() for bb in trk[a:b]]) for trk in tb], state_dict=sd)
+            LOG.n("c03.state_checked")
+            LOG.rec("C03", "corpus", "state_in_bar_clock_zero", sd.get("cur_time_bar") == 0, (name, cuts[:5], sd.get("cur_time_bar")))
+        got = _detok_obs(tok, toks)
+        LOG.n("c03.partitions_compared")
+        for t, (r, g) in enumerate(zip(ref, got)):
+            LOG.rec("C03", "corpus", "chunked_equals_whole", r["notes"] == g["notes"] and r["dur"] == g["dur"] and r["caps"] == g["caps"],
+                    {"file": name, "cuts": list(cuts)[:8], "track": t, "dur": (r["dur"], g["dur"]),
+                     "whole_only": [x for x in r["notes"] if x not in g["notes"]][:3], "chunk_only": [x for x in g["notes"] if x not in r["notes"]][:3]})
+    return {"file": name, "bars": nb, "cfg": {k2: cfg[k2] for k2 in ("flags", "bins", "tracks")}}, nb >= 2
+
+
+def phases(tier):
+    from vmon import corpus
+    return [("corpus", corpus.phase(7, 7 * 32, _corpus_body))]
